@@ -6,4 +6,4 @@ import Vet.Props.C17
 #print axioms Vet.C17_monotone
 #print axioms Vet.C17_certify_criteria
 #print axioms Vet.C17_dedup_keeps_twin
-#print axioms Vet.C17_counterexample_dedup
+#print axioms Vet.C17_fixed_dedup
